@@ -12,6 +12,7 @@ import (
 	"encoding/json"
 	"fmt"
 	"sort"
+	"sync"
 
 	specqbft "github.com/bloxapp/ssv-spec/qbft"
 	spectypes "github.com/bloxapp/ssv-spec/types"
@@ -68,6 +69,7 @@ type Cfg struct {
 	MaxRound specqbft.Round // no timeout is fired at an operator whose round is >= MaxRound
 	Policy   *Policy        // behaviour of Byz (nil = silent)
 	Role     spectypes.BeaconRole
+	Domain   spectypes.DomainType // zero value = testingutils.TestingSSVDomainType
 
 	KeySet     *testingutils.TestKeySet
 	Identifier []byte
@@ -76,6 +78,9 @@ type Cfg struct {
 }
 
 func (c *Cfg) Init() {
+	if c.Domain == (spectypes.DomainType{}) {
+		c.Domain = testingutils.TestingSSVDomainType
+	}
 	switch c.N {
 	case 4:
 		c.KeySet = testingutils.Testing4SharesSet()
@@ -84,7 +89,7 @@ func (c *Cfg) Init() {
 	default:
 		panic("n")
 	}
-	id := spectypes.NewMsgID(testingutils.TestingSSVDomainType, c.KeySet.ValidatorPK.Serialize(), c.Role)
+	id := spectypes.NewMsgID(c.Domain, c.KeySet.ValidatorPK.Serialize(), c.Role)
 	c.Identifier = id[:]
 	c.Honest = nil
 	committee := c.KeySet.Committee()
@@ -113,7 +118,7 @@ func (c *Cfg) mkShare(id spectypes.OperatorID, committee []*spectypes.Operator) 
 		OperatorID:      id,
 		ValidatorPubKey: c.KeySet.ValidatorPK.Serialize(),
 		SharePubKey:     c.KeySet.Shares[id].GetPublicKey().Serialize(),
-		DomainType:      testingutils.TestingSSVDomainType,
+		DomainType:      c.Domain,
 		Quorum:          c.KeySet.Threshold,
 		PartialQuorum:   c.KeySet.PartialThreshold,
 		Committee:       committee,
@@ -146,6 +151,7 @@ type Msg struct {
 }
 
 type Pool struct {
+	mu    sync.RWMutex
 	byKey map[string]*Msg
 	byPtr map[*specqbft.SignedMessage]int32
 	List  []*Msg
@@ -156,6 +162,8 @@ func NewPool() *Pool {
 }
 
 func (p *Pool) InternBytes(data []byte, from spectypes.OperatorID) *Msg {
+	p.mu.Lock()
+	defer p.mu.Unlock()
 	if m, ok := p.byKey[string(data)]; ok {
 		return m
 	}
@@ -171,8 +179,15 @@ func (p *Pool) InternBytes(data []byte, from spectypes.OperatorID) *Msg {
 }
 
 func (p *Pool) Intern(sm *specqbft.SignedMessage, from spectypes.OperatorID) *Msg {
-	if id, ok := p.byPtr[sm]; ok {
-		return p.List[id]
+	p.mu.RLock()
+	id, ok := p.byPtr[sm]
+	var known *Msg
+	if ok {
+		known = p.List[id]
+	}
+	p.mu.RUnlock()
+	if ok {
+		return known
 	}
 	data, err := sm.Encode()
 	if err != nil {
@@ -185,7 +200,10 @@ func (p *Pool) idOf(sm *specqbft.SignedMessage) int32 {
 	if sm == nil {
 		return -1
 	}
-	if id, ok := p.byPtr[sm]; ok {
+	p.mu.RLock()
+	id, ok := p.byPtr[sm]
+	p.mu.RUnlock()
+	if ok {
 		return id
 	}
 	return p.Intern(sm, 0).ID
@@ -287,14 +305,29 @@ type Op struct {
 	share *spectypes.Share
 }
 
-var signer = testingutils.NewTestingKeyManager()
+// keySigner signs QBFT roots with the operator's share key under the configuration's domain
+// (what the spec's testing key manager does, with a configurable domain).
+type keySigner struct{ c *Cfg }
+
+func (k keySigner) SignRoot(data spectypes.Root, sigType spectypes.SignatureType, pk []byte) (spectypes.Signature, error) {
+	for _, sk := range k.c.KeySet.Shares {
+		if bytes.Equal(sk.GetPublicKey().Serialize(), pk) {
+			r, err := spectypes.ComputeSigningRoot(data, spectypes.ComputeSignatureDomain(k.c.Domain, sigType))
+			if err != nil {
+				return nil, err
+			}
+			return sk.SignByte(r[:]).Serialize(), nil
+		}
+	}
+	return nil, fmt.Errorf("pk not found")
+}
 
 func newOp(c *Cfg, id spectypes.OperatorID, share *spectypes.Share) *Op {
 	o := &Op{ID: id, net: &capNet{}, tm: &recTimer{}, store: &recStore{}, share: share}
 	o.qcfg = &qbft.Config{
-		Signer:                signer,
+		Signer:                c.signerFor(id),
 		SigningPK:             share.SharePubKey,
-		Domain:                testingutils.TestingSSVDomainType,
+		Domain:                c.Domain,
 		ValueCheckF:           ValueCheck,
 		ProposerF:             specqbft.RoundRobinProposer,
 		Storage:               o.store,
@@ -393,16 +426,18 @@ type Report struct {
 }
 
 type World struct {
-	C       *Cfg
-	P       *Pool
-	Ops     []*Op
-	Pending []Pend  // global FIFO; the per-recipient order is the inbox of that recipient
-	LogIDs  []int32 // every message ever put on the network, in order (what the Byzantine operator knows)
-	Last    map[spectypes.OperatorID][]int32
-	Inj     map[string]bool // Byzantine injections already made
-	Steps   int
-	Trace   []Event
-	byzSeen int
+	C          *Cfg
+	P          *Pool
+	Ops        []*Op
+	Pending    []Pend                 // global FIFO; the per-recipient order is the inbox of that recipient
+	LogIDs     []int32                // every message ever put on the network, in order (what the Byzantine operator knows)
+	LogFrom    []spectypes.OperatorID // who put LogIDs[i] on the network
+	LogDecided []bool                 // whether that operator's instance was already decided before the call that emitted it
+	Last       map[spectypes.OperatorID][]int32
+	Inj        map[string]bool // Byzantine injections already made
+	Steps      int
+	Trace      []Event
+	byzSeen    int
 	// Isolated operators hear nothing (everything addressed to them is lost) until their next timeout.
 	Isolated map[spectypes.OperatorID]bool
 }
@@ -446,6 +481,8 @@ func (w *World) Clone() *World {
 	}
 	n.Pending = append([]Pend(nil), w.Pending...)
 	n.LogIDs = append([]int32(nil), w.LogIDs...)
+	n.LogFrom = append([]spectypes.OperatorID(nil), w.LogFrom...)
+	n.LogDecided = append([]bool(nil), w.LogDecided...)
 	if w.Last != nil {
 		n.Last = make(map[spectypes.OperatorID][]int32, len(w.Last))
 		for k, v := range w.Last {
@@ -466,6 +503,8 @@ func (w *World) collect(o *Op, r Report) Report {
 		im := w.P.InternBytes(m.Data, o.ID)
 		r.Emitted = append(r.Emitted, im.ID)
 		w.put(im.ID, nil)
+		w.LogFrom[len(w.LogFrom)-1] = o.ID
+		w.LogDecided[len(w.LogDecided)-1] = r.WasDecided
 	}
 	o.net.out = o.net.out[:0]
 	r.Arms = append(r.Arms, o.tm.arms...)
@@ -478,6 +517,8 @@ func (w *World) collect(o *Op, r Report) Report {
 // put places a message on the network: to every honest operator (nil) or to the given ones.
 func (w *World) put(id int32, only []spectypes.OperatorID) {
 	w.LogIDs = append(w.LogIDs, id)
+	w.LogFrom = append(w.LogFrom, w.C.Byz)
+	w.LogDecided = append(w.LogDecided, false)
 	if only == nil {
 		only = w.C.Honest
 	}
@@ -786,7 +827,7 @@ func (w *World) Summary() []string {
 
 // SignMsg signs a QBFT message with operator id's share key under the testing domain.
 func (c *Cfg) SignMsg(id spectypes.OperatorID, claimed []spectypes.OperatorID, m *specqbft.Message, fullData []byte) *specqbft.SignedMessage {
-	r, err := spectypes.ComputeSigningRoot(m, spectypes.ComputeSignatureDomain(testingutils.TestingSSVDomainType, spectypes.QBFTSignatureType))
+	r, err := spectypes.ComputeSigningRoot(m, spectypes.ComputeSignatureDomain(c.Domain, spectypes.QBFTSignatureType))
 	if err != nil {
 		panic(err)
 	}
@@ -795,3 +836,48 @@ func (c *Cfg) SignMsg(id spectypes.OperatorID, claimed []spectypes.OperatorID, m
 }
 
 var _ = bls.Init
+
+// HeadIndex is the position in Pending of the head of to's inbox (-1 if empty).
+func (w *World) HeadIndex(to spectypes.OperatorID) int { return w.headIndex(to) }
+
+// PromoteToHead makes Pending[i] the head of its recipient's inbox (arrival order is the
+// network's choice; used by continuation searches that are not bound to FIFO).
+func (w *World) PromoteToHead(i int) {
+	h := w.headIndex(w.Pending[i].To)
+	if h == i {
+		return
+	}
+	p := w.Pending[i]
+	copy(w.Pending[h+1:i+1], w.Pending[h:i])
+	w.Pending[h] = p
+}
+
+// oneKeySigner avoids the public-key scan: one operator, one key.
+type oneKeySigner struct {
+	c  *Cfg
+	id spectypes.OperatorID
+}
+
+func (k oneKeySigner) SignRoot(data spectypes.Root, sigType spectypes.SignatureType, pk []byte) (spectypes.Signature, error) {
+	if !bytes.Equal(pk, k.c.Share(k.id).SharePubKey) {
+		return keySigner{k.c}.SignRoot(data, sigType, pk)
+	}
+	r, err := spectypes.ComputeSigningRoot(data, spectypes.ComputeSignatureDomain(k.c.Domain, sigType))
+	if err != nil {
+		return nil, err
+	}
+	return k.c.KeySet.Shares[k.id].SignByte(r[:]).Serialize(), nil
+}
+
+func (c *Cfg) signerFor(id spectypes.OperatorID) spectypes.SSVSigner { return oneKeySigner{c, id} }
+
+// Signer is the share-key signer of operator id under the configuration's domain.
+func (c *Cfg) Signer(id spectypes.OperatorID) spectypes.SSVSigner { return c.signerFor(id) }
+
+// HashStateBytes returns the canonical encoding of one spec State (see HashState).
+func (p *Pool) HashStateBytes(s *specqbft.State, startValue []byte, canProcess bool) []byte {
+	w := &World{P: p}
+	var b bytes.Buffer
+	w.HashState(&b, s, startValue, canProcess)
+	return b.Bytes()
+}
